@@ -523,6 +523,20 @@ pub fn check_set(rng: &mut SplitMix64, m: usize, items: &[(u64, f64)]) -> Vec<(S
     if s3 != s3a || bits(&r3) != bits(&r3a) {
         bad.push(("3-vs-3a".into(), format!("ProbMinHash3 and ProbMinHash3a differ ({} items, m={})", items.len(), m), inp(json!({"a": s3, "b": s3a}))));
     }
+    // reset: a used ProbMinHash2 behaves like a new one afterwards (C13)
+    {
+        let mut s = ProbMinHash2::<u64, FnvHasher>::new(m, INIT);
+        for (id, w) in perm.iter().take(perm.len() / 2 + 1) {
+            s.hash_item(*id ^ 0x5555, *w);
+        }
+        s.reset();
+        for (id, w) in &base {
+            s.hash_item(*id, *w);
+        }
+        if *s.get_signature() != s2 || bits(&s.verif_registers()) != bits(&r2) {
+            bad.push(("reset-2".into(), format!("ProbMinHash2 after reset differs from a new sketcher on the same input (m={}, {} items)", m, items.len()), inp(json!({}))));
+        }
+    }
     // an already inserted pair again
     let mut dup = base.clone();
     dup.push(base[rng.below(base.len() as u64) as usize]);
